@@ -213,3 +213,19 @@ register(Contract(
     modifies={'preprocessor_', 'n_features_in_'},
     returns=Returns(pi_returns), prop=['C03', 'C05', 'C17']))
 C.unit('C03', 'base_metric:BaseMetricLearner._prepare_inputs')
+
+
+# ---- translation typing (C19): the prepared data has the type of the data passed in (validation does not move points)
+from npvc import ttype as _TT
+
+
+def _prep_tt(env, p, res):
+  t = _TT.tt_of(p, env['X'])
+  if isinstance(res, VTuple):
+    _TT.set_tt(p, res.items[0], t)
+    _TT.set_tt(p, res.items[1], _TT.tt_of(p, env['y']))
+  else:
+    _TT.set_tt(p, res, t)
+
+
+REGISTRY['base_metric:BaseMetricLearner._prepare_inputs'].tt_rule = _prep_tt
